@@ -239,3 +239,295 @@ Proof.
   intros p Hp. unfold prepare_file_creation. apply vpost_bind_r. intro w0. apply vpost_bind_r. intros _.
   apply make_dirs_wf. apply path_wf_tl. exact Hp.
 Qed.
+
+(* ------------------------------------------------------------------ updates of the tables *)
+Lemma in_files_set : forall l p v q o, In (q, Some o) (files_set l p v) -> In (q, Some o) l \/ v = Some o.
+Proof.
+  induction l as [|[k x] l IH]; intros p v q o H; cbn [files_set] in H.
+  - destruct H as [H|[]]. inversion H; subst. right; reflexivity.
+  - destruct (path_eqb k p).
+    + destruct H as [H|H]; [inversion H; subst; right; reflexivity | left; right; exact H].
+    + destruct H as [H|H]; [left; left; exact H|]. destruct (IH _ _ _ _ H); [left; right; assumption | right; assumption].
+Qed.
+Lemma in_subs_set : forall l p v q o, In (q, Some o) (subs_set l p v) -> In (q, Some o) l \/ v = Some o.
+Proof.
+  induction l as [|[k x] l IH]; intros p v q o H; cbn [subs_set] in H.
+  - destruct H as [H|[]]. inversion H; subst. right; reflexivity.
+  - destruct (py_eq k p).
+    + destruct H as [H|H]; [inversion H; subst; right; reflexivity | left; right; exact H].
+    + destruct H as [H|H]; [left; left; exact H|]. destruct (IH _ _ _ _ H); [left; right; assumption | right; assumption].
+Qed.
+Lemma in_files_del : forall l p e, In e (files_del l p) -> In e l.
+Proof.
+  induction l as [|[k x] l IH]; intros p e H; cbn [files_del] in H; [exact H|].
+  destruct (path_eqb k p); [right; eapply IH; eauto|]. destruct H as [H|H]; [left; exact H | right; eapply IH; eauto].
+Qed.
+
+Lemma set_new_wk : forall c w, (RW (w_new w) -> RW c) -> wk w (set_new c w).
+Proof. intros c w H (A & B & C & D). split; [exact (H A)|]. split; [exact B|]. split; [exact C | exact D]. Qed.
+
+Lemma start_file_wk : forall p, pres wkPO (new_start_building_file p).
+Proof.
+  intro p. unfold new_start_building_file. apply pres_bind; [auto with pres|]. intros _.
+  apply pres_modify. intro w. apply set_new_wk. intros [A B]. split; cbn [cache_with c_files c_subs]; [|exact B].
+  intros q o H. destruct (in_files_set _ _ _ _ _ H) as [K|K]; [eapply A; eauto | discriminate K].
+Qed.
+Lemma abort_file_wk : forall p, pres wkPO (new_abort_building_file p).
+Proof.
+  intro p. unfold new_abort_building_file. apply pres_modify. intro w. apply set_new_wk.
+  intros [A B]. split; cbn [cache_with c_files c_subs]; [|exact B].
+  intros q o H. eapply A. eapply in_files_del; eauto.
+Qed.
+Lemma finish_file_wk : forall p o, op_wf o = true -> pres wkPO (new_finish_building_file p o).
+Proof.
+  intros p o Ho. unfold new_finish_building_file. apply pres_modify. intro w. apply set_new_wk.
+  intros [A B]. split; cbn [cache_with c_files c_subs]; [|exact B].
+  intros q o' H. destruct (in_files_set _ _ _ _ _ H) as [K|K]; [eapply A; eauto | inversion K; subst; exact Ho].
+Qed.
+Lemma start_sub_wk : forall k, pres wkPO (new_start_subbuild k).
+Proof.
+  intro k. unfold new_start_subbuild. apply pres_bind; [auto with pres|]. intros _.
+  apply pres_modify. intro w. apply set_new_wk. intros [A B]. split; cbn [cache_with c_files c_subs]; [exact A|].
+  intros q o H. destruct (in_subs_set _ _ _ _ _ H) as [K|K]; [eapply B; eauto | discriminate K].
+Qed.
+Lemma finish_sub_wk : forall k o, op_wf o = true -> pres wkPO (new_finish_subbuild k o).
+Proof.
+  intros k o Ho. unfold new_finish_subbuild. apply pres_modify. intro w. apply set_new_wk.
+  intros [A B]. split; cbn [cache_with c_files c_subs]; [exact A|].
+  intros q o' H. destruct (in_subs_set _ _ _ _ _ H) as [K|K]; [eapply B; eauto | inversion K; subst; exact Ho].
+Qed.
+#[local] Hint Resolve start_file_wk abort_file_wk start_sub_wk : pres.
+
+Lemma m_bd_started_wk : forall p created, forallb path_wf created = true -> pres wkPO (m_bd_started p created).
+Proof.
+  intros p created Hc w w' r H. unfold m_bd_started in H.
+  destruct (bd_started (w_bd w) p created) as [b l] eqn:E. inversion H; subst.
+  intros (A & B & C & D). split; [exact A|]. split; [|split; [exact C | exact D]].
+  intros d Hd. cbn [w_bd set_bd] in Hd.
+  destruct (bd_started_spec _ _ _ _ _ E) as (_ & _ & _ & S4 & _).
+  destruct (S4 d Hd) as [K|K]; [exact (B d K)|]. rewrite forallb_forall in Hc. exact (Hc d K).
+Qed.
+Lemma m_bd_error_wk : forall p, pres wkPO (m_bd_error p).
+Proof.
+  intros p w w' r H. unfold m_bd_error in H.
+  destruct (bd_error (w_bd w) p) as [b|] eqn:E; inversion H; subst; [|apply wk_refl].
+  intros (A & B & C & D). split; [exact A|]. split; [|split; [exact C | exact D]].
+  intros d Hd. cbn [w_bd set_bd] in Hd.
+  destruct (bd_error_spec _ _ _ E) as (_ & S2 & _). apply B. apply S2. exact Hd.
+Qed.
+#[local] Hint Resolve m_bd_error_wk : pres.
+
+Lemma bf_claim_wk : forall p, pres wkPO (bf_claim p).
+Proof. intro p. unfold bf_claim. pres_auto. Qed.
+
+Lemma bf_claim_none : forall p w w' a, bf_claim p w = (w', inl a) -> a = None.
+Proof.
+  intros p w w' a H. unfold bf_claim in H.
+  apply bind_inv in H. destruct H as [(w1 & u1 & _ & H) | (e & _ & Y)]; [|discriminate Y].
+  apply bind_inv in H. destruct H as [(w2 & u2 & _ & H) | (e & _ & Y)]; [|discriminate Y].
+  inversion H; reflexivity.
+Qed.
+
+(* ------------------------------------------------------------------ nothing to reuse *)
+Lemma bfcl_cold : forall p f a k w, Cold w -> build_file_cache_lookup p f a k w = (w, inl None).
+Proof.
+  intros p f a k w [C _]. unfold build_file_cache_lookup. unfold bind at 1, get. unfold cache_get_file. rewrite C.
+  reflexivity.
+Qed.
+Lemma sbcl_cold : forall key f w, Cold w -> subbuild_cache_lookup key f w = (w, inl None).
+Proof.
+  intros key f w [_ C]. unfold subbuild_cache_lookup. unfold bind at 1, get. rewrite C. reflexivity.
+Qed.
+
+Lemma bf_inner_cold : forall p c f sa skw w, Cold w ->
+  (cached <- build_file_cache_lookup p f sa skw ;;
+   reused <- bf_reuse p c f sa skw cached ;;
+   match reused with
+   | Some (inl o) => ret (Some (inl o))
+   | Some (inr eo) => m_bd_error p ;;; ret (Some (inr eo))
+   | None => bf_claim p
+   end) w = bf_claim p w.
+Proof. intros p c f sa skw w C. unfold bind at 1. rewrite (bfcl_cold _ _ _ _ _ C). reflexivity. Qed.
+
+Lemma presW : forall X (m : world -> world * X) w w' r, pres wkPO m -> m w = (w', r) -> W w -> W w'.
+Proof. intros X m w w' r P E. exact (P _ _ _ E). Qed.
+
+Lemma bf_setup_W : forall p c f sa skw w w1 r, W w -> path_wf p = true ->
+  bf_setup p c f sa skw w = (w1, r) -> W w1 /\ (r = inl None \/ exists e, r = inr e).
+Proof.
+  intros p c f sa skw w w1 r HW Hp H. unfold bf_setup in H.
+  apply bind_inv in H. destruct H as [(wa & ua & Ea & H) | (e & Ea & ->)].
+  2:{ split; [|right; eauto]. refine (presW _ _ _ _ _ _ Ea HW). auto with pres. }
+  assert (Wa : W wa) by (refine (presW _ _ _ _ _ _ Ea HW); auto with pres).
+  apply bind_inv in H. destruct H as [(wb & icf & Eb & H) | (e & Eb & ->)].
+  2:{ split; [|right; eauto]. refine (presW _ _ _ _ _ _ Eb Wa). auto with pres. }
+  assert (Wb : W wb) by (refine (presW _ _ _ _ _ _ Eb Wa); auto with pres).
+  apply bind_inv in H. destruct H as [(wc & uc & Ec & H) | (e & Ec & ->)].
+  2:{ split; [|right; eauto]. destruct icf; inversion Ec; subst; exact Wb. }
+  assert (Wc : W wc) by (destruct icf; inversion Ec; subst; exact Wb).
+  apply bind_inv in H. destruct H as [(wd & created & Ed & H) | (e & Ed & ->)].
+  2:{ split; [|right; eauto]. refine (presW _ _ _ _ _ _ Ed Wc). auto with pres. }
+  assert (Wd : W wd) by (refine (presW _ _ _ _ _ _ Ed Wc); auto with pres).
+  pose proof (prepare_file_creation_wf p Hp _ _ _ Ed) as Hcr.
+  apply bind_inv in H. destruct H as [(we & locked & Ee & H) | (e & Ee & ->)].
+  2:{ split; [|right; eauto]. exact (presW _ _ _ _ _ (m_bd_started_wk p created Hcr) Ee Wd). }
+  assert (We : W we) by exact (presW _ _ _ _ _ (m_bd_started_wk p created Hcr) Ee Wd).
+  unfold catch in H. rewrite (bf_inner_cold p c f sa skw we (proj2 (proj2 (proj2 We)))) in H.
+  destruct (bf_claim p we) as [wf [a|e]] eqn:Ef.
+  - inversion H; subst. split; [exact (presW _ _ _ _ _ (bf_claim_wk p) Ef We)|]. left.
+    rewrite (bf_claim_none _ _ _ _ Ef). reflexivity.
+  - assert (Wf : W wf) by exact (presW _ _ _ _ _ (bf_claim_wk p) Ef We).
+    apply bind_inv in H. destruct H as [(wg & ug & Eg & H) | (e' & Eg & ->)].
+    + inversion H; subst. split; [exact (presW _ _ _ _ _ (m_bd_error_wk p) Eg Wf) | right; eauto].
+    + split; [exact (presW _ _ _ _ _ (m_bd_error_wk p) Eg Wf) | right; eauto].
+Qed.
+
+Lemma bf_fail_W : forall p c f sa skw subs e w w' r oo, W w ->
+  op_wf (OBuildFile p c f sa skw subs PNone PNone true false) = true ->
+  bf_fail p c f sa skw subs e w = (w', (r, oo)) ->
+  W w' /\ exists o, oo = Some o /\ op_wf o = true.
+Proof.
+  intros p c f sa skw subs e w w' r oo HW Ho H. unfold bf_fail in H. cbv zeta in H.
+  match type of H with (match ?X with _ => _ end) = _ => destruct X as [w1 [u|e1]] eqn:E end;
+    inversion H; subst; (split; [|eexists; split; [reflexivity | exact Ho]]).
+  all: refine (presW _ _ _ _ _ _ E HW); pose proof (finish_file_wk p _ Ho); pres_auto.
+Qed.
+
+Lemma bf_finish_W : forall p c f sa skw res subs w w' r oo, W w ->
+  path_wf p = true -> sanitized sa = true -> sanitized skw = true -> forallb op_wf subs = true ->
+  bf_finish p c f sa skw res subs w = (w', (r, oo)) ->
+  W w' /\ exists o, oo = Some o /\ op_wf o = true.
+Proof.
+  intros p c f sa skw res subs w w' r oo HW Hp Ha Hk Hs H. unfold bf_finish in H.
+  assert (Ho : op_wf (OBuildFile p c f sa skw subs PNone PNone true false) = true).
+  { cbn [op_wf]. rewrite Hp, Ha, Hk, Hs. reflexivity. }
+  assert (F : forall e w0, W w0 -> bf_fail p c f sa skw subs e w0 = (w', (r, oo)) ->
+                W w' /\ exists o, oo = Some o /\ op_wf o = true).
+  { intros e w0 H0 E. eapply bf_fail_W; eauto. }
+  destruct res as [v|e]; [|eapply F; eauto].
+  destruct (sanitize v) as [sv|] eqn:Esv; [|eapply F; eauto].
+  destruct (noneable_cmp p c w) as [w4 [cmp|e]] eqn:E.
+  - assert (W4 : W w4) by (refine (presW _ _ _ _ _ _ E HW); auto with pres).
+    pose proof (noneable_cmp_val _ _ _ _ _ (proj1 (proj2 (proj2 HW))) E) as Hc.
+    assert (Ho2 : op_wf (OBuildFile p c f sa skw subs sv cmp false false) = true).
+    { cbn [op_wf]. rewrite Hp, Ha, Hk, Hs, Hc, (sanitize_sanitized _ _ Esv). reflexivity. }
+    destruct cmp; try (eapply F; eauto; fail).
+    all: cbv zeta in H;
+      match type of H with (match ?X with _ => _ end) = _ => destruct X as [w5 u5] eqn:E5 end;
+      inversion H; subst; (split; [|eexists; split; [reflexivity | exact Ho2]]);
+      exact (presW _ _ _ _ _ (finish_file_wk p _ Ho2) E5 W4).
+  - assert (W4 : W w4) by (refine (presW _ _ _ _ _ _ E HW); auto with pres).
+    eapply F; eauto.
+Qed.
+
+Lemma sb_setup_W : forall f sa skw w w1 r, W w ->
+  sb_setup f sa skw w = (w1, r) -> W w1 /\ (r = inl None \/ exists e, r = inr e).
+Proof.
+  intros f sa skw w w1 r HW H. unfold sb_setup in H. cbv zeta in H.
+  apply bind_inv in H. destruct H as [(wa & ua & Ea & H) | (e & Ea & ->)].
+  2:{ split; [|right; eauto]. refine (presW _ _ _ _ _ _ Ea HW). auto with pres. }
+  assert (Wa : W wa) by (refine (presW _ _ _ _ _ _ Ea HW); auto with pres).
+  unfold bind at 1 in H. rewrite (sbcl_cold _ _ _ (proj2 (proj2 (proj2 Wa)))) in H.
+  apply bind_inv in H. destruct H as [(wb & ub & Eb & H) | (e & Eb & ->)].
+  - inversion H; subst. split; [|left; reflexivity]. exact (presW _ _ _ _ _ (start_sub_wk _) Eb Wa).
+  - split; [|right; eauto]. exact (presW _ _ _ _ _ (start_sub_wk _) Eb Wa).
+Qed.
+
+Lemma sb_finish_W : forall f sa skw res subs w w' r oo, W w ->
+  sanitized sa = true -> sanitized skw = true -> forallb op_wf subs = true ->
+  sb_finish f sa skw res subs w = (w', (r, oo)) ->
+  W w' /\ exists o, oo = Some o /\ op_wf o = true.
+Proof.
+  intros f sa skw res subs w w' r oo HW Ha Hk Hs H. unfold sb_finish in H. cbv zeta in H.
+  assert (G : forall rr o, op_wf o = true ->
+     (match new_finish_subbuild (subbuild_key f sa skw) o w with (w4, _) => (w4, (rr, Some o)) end) = (w', (r, oo)) ->
+     W w' /\ exists o, oo = Some o /\ op_wf o = true).
+  { intros rr o Ho E. destruct (new_finish_subbuild (subbuild_key f sa skw) o w) as [w4 u4] eqn:E4.
+    inversion E; subst. split; [exact (presW _ _ _ _ _ (finish_sub_wk _ _ Ho) E4 HW) | eauto]. }
+  destruct res as [v|e].
+  - destruct (sanitize v) as [sv|] eqn:Esv.
+    + eapply G; [|exact H]. cbn [op_wf]. rewrite Ha, Hk, Hs, (sanitize_sanitized _ _ Esv). reflexivity.
+    + eapply G; [|exact H]. cbn [op_wf]. rewrite Ha, Hk, Hs. reflexivity.
+  - eapply G; [|exact H]. cbn [op_wf]. rewrite Ha, Hk, Hs. reflexivity.
+Qed.
+
+Lemma m_query_W : forall q w w1 r o, W w -> query_wf q = true -> m_query q w = (w1, (r, o)) ->
+  W w1 /\ forall x, o = Some x -> op_wf x = true.
+Proof.
+  intros q w w1 r o HW Hq H. split.
+  - refine (presW _ _ _ _ _ _ H HW). auto with pres.
+  - unfold m_query in H. destruct (exec_query q None w) as [w2 [v|e]] eqn:E.
+    + inversion H; subst. intros x Y. inversion Y; subst. cbn [op_wf]. rewrite Hq.
+      rewrite (exec_query_val _ _ _ _ (proj1 (proj2 (proj2 HW))) E). reflexivity.
+    + destruct e; inversion H; subst; intros x Y; inversion Y; subst; cbn [op_wf]; rewrite Hq; reflexivity.
+Qed.
+
+Lemma W_log_answer : forall q r w, W w -> W (log_answer q r w).
+Proof.
+  intros q r w. unfold log_answer.
+  repeat match goal with |- context [match ?y with _ => _ end] => destruct y end;
+    first [exact (fun H => H) | apply wk_same; reflexivity].
+Qed.
+
+Lemma forallb_app_op : forall subs o, forallb op_wf subs = true -> (forall x, o = Some x -> op_wf x = true) ->
+  forallb op_wf (app_op subs o) = true.
+Proof.
+  intros subs [x|] Hs Ho; cbn [app_op]; [|exact Hs]. rewrite forallb_app, Hs. cbn [forallb]. rewrite (Ho x eq_refl). reflexivity.
+Qed.
+
+(* ------------------------------------------------------------------ every program *)
+Theorem run_W : forall pr, prog_paths_wf pr -> forall target subs w w' r subs',
+  W w -> forallb op_wf subs = true -> run pr target subs w = (w', (r, subs')) ->
+  W w' /\ forallb op_wf subs' = true.
+Proof.
+  induction 1 as [v | e | s q k Hq Hk IHk | c k Hk IHk | s p c f a kw fn k Hp Hfn IHfn Hk IHk | s f a kw fn k Hfn IHfn Hk IHk];
+    intros target subs w w' r subs' HW Hs H; cbn [run] in H.
+  - inversion H; subst. auto.
+  - inversion H; subst. auto.
+  - destruct s; [eapply IHk; eauto|].
+    destruct (m_query q w) as [w1 [r1 o]] eqn:E.
+    destruct (m_query_W _ _ _ _ _ HW Hq E) as [W1 Ho].
+    eapply IHk; [| |exact H]; [apply W_log_answer; exact W1 | apply forallb_app_op; assumption].
+  - destruct target as [t|]; [|eapply IHk; eauto].
+    destruct (write_file (w_fs w) t c None (N.succ (w_clock w)) (w_nextid w)) as [fs'|e] eqn:E.
+    + eapply IHk; [| |exact H]; [|exact Hs]. refine ((_ : wk w _) HW). apply wk_same; reflexivity.
+    + inversion H; subst. auto.
+  - destruct s; [eapply IHk; eauto|].
+    match type of H with (let '(_, _) := ?X in _) = _ => destruct X as [w1 [r1 o]] eqn:E end.
+    assert (K : W w1 /\ forall x, o = Some x -> op_wf x = true).
+    { rewrite m_build_file_unfold in E.
+      destruct (sanitize a) as [sa|] eqn:Ea; [|inversion E; subst; split; [exact HW | intros x Y; discriminate Y]].
+      destruct (sanitize kw) as [skw|] eqn:Ek; [|inversion E; subst; split; [exact HW | intros x Y; discriminate Y]].
+      pose proof (sanitize_sanitized _ _ Ea) as Sa. pose proof (sanitize_sanitized _ _ Ek) as Sk.
+      destruct (bf_setup p c f sa skw w) as [w2 rs] eqn:Es.
+      destruct (bf_setup_W _ _ _ _ _ _ _ _ HW Hp Es) as [W2 [->|[e ->]]].
+      - unfold bf_rebuild in E.
+        destruct (run (fn p sa skw) (Some p) [] (bf_invoke_world p f sa skw w2)) as [w3 [res bs]] eqn:Ef.
+        assert (Wi : W (bf_invoke_world p f sa skw w2)) by (refine ((_ : wk w2 _) W2); apply wk_same; reflexivity).
+        destruct (IHfn p sa skw _ [] _ _ _ _ Wi eq_refl Ef) as [W3 Hbs].
+        destruct (bf_finish_W _ _ _ _ _ _ _ _ _ _ _ W3 Hp Sa Sk Hbs E) as [W4 (o' & -> & Ho')].
+        split; [exact W4 | intros x Y; inversion Y; subst; exact Ho'].
+      - inversion E; subst. split; [exact W2|]. intros x Y. inversion Y; subst. cbn [op_wf forallb].
+        rewrite Hp, Sa, Sk. reflexivity. }
+    destruct K as [W1 Ho]. eapply IHk; [| |exact H]; [exact W1 | apply forallb_app_op; assumption].
+  - destruct s; [eapply IHk; eauto|].
+    match type of H with (let '(_, _) := ?X in _) = _ => destruct X as [w1 [r1 o]] eqn:E end.
+    assert (K : W w1 /\ forall x, o = Some x -> op_wf x = true).
+    { rewrite m_subbuild_unfold in E.
+      destruct (sanitize a) as [sa|] eqn:Ea; [|inversion E; subst; split; [exact HW | intros x Y; discriminate Y]].
+      destruct (sanitize kw) as [skw|] eqn:Ek; [|inversion E; subst; split; [exact HW | intros x Y; discriminate Y]].
+      pose proof (sanitize_sanitized _ _ Ea) as Sa. pose proof (sanitize_sanitized _ _ Ek) as Sk.
+      destruct (sb_setup f sa skw w) as [w2 rs] eqn:Es.
+      destruct (sb_setup_W _ _ _ _ _ _ HW Es) as [W2 [->|[e ->]]].
+      - unfold sb_rebuild in E.
+        destruct (run (fn sa skw) None [] (sb_invoke_world f sa skw w2)) as [w3 [res bs]] eqn:Ef.
+        assert (Wi : W (sb_invoke_world f sa skw w2)) by (refine ((_ : wk w2 _) W2); apply wk_same; reflexivity).
+        destruct (IHfn sa skw _ [] _ _ _ _ Wi eq_refl Ef) as [W3 Hbs].
+        destruct (sb_finish_W _ _ _ _ _ _ _ _ _ W3 Sa Sk Hbs E) as [W4 (o' & -> & Ho')].
+        split; [exact W4 | intros x Y; inversion Y; subst; exact Ho'].
+      - inversion E; subst. split; [exact W2|]. intros x Y. inversion Y; subst. cbn [op_wf forallb].
+        rewrite Sa, Sk. reflexivity. }
+    destruct K as [W1 Ho]. eapply IHk; [| |exact H]; [exact W1 | apply forallb_app_op; assumption].
+Qed.
+
+Print Assumptions run_W.
